@@ -36,3 +36,7 @@ import NbioVerif.Properties.ConnClose
 #print axioms ConnFull.closeNow_eq_flip_teardown
 #print axioms ConnFull.c01_accepted_is_reported
 #print axioms ConnFull.c01_reported_needs_wf
+#print axioms ConnFull.sendfileNoDup_step
+#print axioms ConnFull.reach_sendfileNoDup
+#print axioms ConnFull.sendfileLoop_denyDup_wl
+#print axioms ConnFull.c01_sendfile_nodup
